@@ -60,6 +60,60 @@ fn nested_jumb(depth: usize) -> Vec<u8> {
     out
 }
 
+/// RIFF/WAVE whose only content is a chain of `depth` nested container chunks of the given kind ("LIST" with a form type,
+/// or the type-less "seqt")
+fn nested_riff(kind: &str, depth: usize) -> Vec<u8> {
+    // every level is 12 bytes: id, size, then a form type ("INFO" for LIST) or four zero bytes (seqt, as some writers emit it)
+    let per = 12;
+    let mut out = Vec::with_capacity(12 + depth * per);
+    let total = 4 + depth * per;            // after "RIFF" + size: form type + chunks
+    out.extend_from_slice(b"RIFF"); out.extend_from_slice(&(total as u32).to_le_bytes()); out.extend_from_slice(b"WAVE");
+    for d in 0..depth {
+        let inner = (depth - d - 1) * per + 4;
+        out.extend_from_slice(kind.as_bytes()); out.extend_from_slice(&(inner as u32).to_le_bytes());
+        if kind == "LIST" { out.extend_from_slice(b"INFO"); } else { out.extend_from_slice(&[0u8; 4]); }
+    }
+    out
+}
+
+/// ISO BMFF: ftyp followed by `depth` nested container boxes (moov > trak > mdia > minf > stbl > ... repeated)
+fn nested_bmff(depth: usize) -> Vec<u8> {
+    let names: [&[u8; 4]; 5] = [b"moov", b"trak", b"mdia", b"minf", b"stbl"];
+    let mut out = vec![0, 0, 0, 16, b'f', b't', b'y', b'p', b'm', b'p', b'4', b'2', 0, 0, 0, 0];
+    for d in 0..depth { let size = (depth - d) * 8; out.extend_from_slice(&(size as u32).to_be_bytes()); out.extend_from_slice(names[d % 5]); }
+    out
+}
+
+/// little-endian TIFF whose first IFD's "next IFD" pointer points back at itself (or whose IFDs form a cycle of `n`)
+fn tiff_ifd_cycle(n: usize) -> Vec<u8> {
+    let mut out = vec![b'I', b'I', 42, 0, 8, 0, 0, 0];
+    for k in 0..n {
+        let next = if k + 1 == n { 8 } else { 8 + (k + 1) * 18 };
+        out.extend_from_slice(&1u16.to_le_bytes());                       // one entry
+        out.extend_from_slice(&[0x00, 0x01, 3, 0, 1, 0, 0, 0, 1, 0, 0, 0]); // ImageWidth = 1
+        out.extend_from_slice(&(next as u32).to_le_bytes());
+    }
+    out
+}
+
+fn structure_case(op: &str, hint: &str, bytes: &[u8]) -> Value {
+    match op {
+        "sign" => {
+            let t0 = Instant::now();
+            let r = catch(AssertUnwindSafe(|| sign_bytes(ctx(&settings_json()), &simple_manifest_json("c10", hint), hint, bytes, "ed25519").map(|_| "signed".to_string()).map_err(|e| err_kind(&e))));
+            let ms = t0.elapsed().as_millis() as u64;
+            match r { Ok(Ok(s)) => json!({"r": "ok", "d": s, "ms": ms}), Ok(Err(e)) => json!({"r": "err", "d": e, "ms": ms}), Err(p) => json!({"r": "panic", "d": p.chars().take(300).collect::<String>(), "ms": ms}) }
+        }
+        "remove" => {
+            let t0 = Instant::now();
+            let r = catch(AssertUnwindSafe(|| { let mut o = Cursor::new(Vec::new()); c2pa::verif_hooks::remove_cai_store_from_stream(hint, &mut Cursor::new(bytes.to_vec()), &mut o).map(|_| "removed".to_string()).map_err(|e| err_kind(&e)) }));
+            let ms = t0.elapsed().as_millis() as u64;
+            match r { Ok(Ok(s)) => json!({"r": "ok", "d": s, "ms": ms}), Ok(Err(e)) => json!({"r": "err", "d": e, "ms": ms}), Err(p) => json!({"r": "panic", "d": p.chars().take(300).collect::<String>(), "ms": ms}) }
+        }
+        _ => run_case(op, hint, bytes),
+    }
+}
+
 /// a compressed store whose brotli box inflates to `mb` megabytes of zeros
 fn brotli_bomb(mb: usize) -> Option<Vec<u8>> {
     let a = sign_bytes(ctx(&json!({"verify": {"remote_manifest_fetch": false}, "core": {"prefer_compress_manifests": true}})), &simple_manifest_json("c10", "image/jpeg"), "image/jpeg", &fixture("no_manifest.jpg"), "ed25519").ok()?;
@@ -109,6 +163,17 @@ pub fn child(args: &[String]) {
             match brotli_bomb(mb) {
                 Some(b) => emit(&json!({"e": "done", "case": format!("brotli-bomb:{mb}MB"), "len": b.len(), "res": run_case("read", "application/c2pa", &b), "res2": run_case("sidecar", "", &b)})),
                 None => emit(&json!({"e": "done", "case": format!("brotli-bomb:{mb}MB"), "res": {"r": "setup-failed"}})),
+            }
+        }
+        // deeply nested / cyclic container structures, through every path that parses or rewrites the asset
+        let mut structs: Vec<(String, &str, Vec<u8>)> = vec![];
+        for d in [3usize, 50, 2000, 100_000] { structs.push((format!("nested-riff-LIST:{d}"), "audio/wav", nested_riff("LIST", d))); structs.push((format!("nested-riff-seqt:{d}"), "audio/wav", nested_riff("seqt", d))); structs.push((format!("nested-bmff:{d}"), "video/mp4", nested_bmff(d))); }
+        for n in [1usize, 2, 50] { structs.push((format!("tiff-ifd-cycle:{n}"), "image/tiff", tiff_ifd_cycle(n))); }
+        for (name, hint, bytes) in structs {
+            for op in ["read", "ingredient", "sign", "remove"] {
+                let case = format!("{name}:{op}");
+                emit(&json!({"e": "begin", "case": case}));
+                emit(&json!({"e": "done", "case": case, "len": bytes.len(), "res": structure_case(op, hint, &bytes)}));
             }
         }
         // remote manifest: the server claims an absurd Content-Length
